@@ -56,6 +56,11 @@ def stable_hash(obj):
     ).hexdigest()[:16]
 
 
+def match_known(key, patterns):
+    import fnmatch
+    return any(key == p or fnmatch.fnmatchcase(key, p) for p in patterns)
+
+
 class Task:
     def __init__(self, name, fn, quick, thorough, shards=16, **kwargs):
         self.name = name
@@ -98,12 +103,15 @@ class Rec:
         self.excluded_known += n
 
     def is_open(self, key):
-        return key in self.open_keys
+        """Open known findings may be written as glob patterns over keys
+        (e.g. "make/*/'" = a single quote in any role of the Make
+        backend)."""
+        return match_known(key, self.open_keys)
 
     def fail(self, key, message, case=None):
         """Report a violation.  Returns (after counting) when `key` is an open
         known finding, raises Violation otherwise."""
-        if key in self.open_keys:
+        if match_known(key, self.open_keys):
             self.known_hits[key] += 1
             return
         raise Violation(key, message, case)
@@ -172,7 +180,7 @@ def run_hypothesis(rec, strategy, prop, max_examples, seed, shrink=True,
             where, origin = exc_origin(e)
             if where == 'repo' and crash_is_violation:
                 key = 'exception/' + origin
-                if key in rec.open_keys:
+                if match_known(key, rec.open_keys):
                     rec.known_hits[key] += 1
                     return
                 v = Violation(key, ''.join(traceback.format_exception_only(
@@ -229,7 +237,7 @@ def run_machine(rec, machine_cls, max_examples, steps, seed, shrink=False):
                                   settings=st)
     except Violation as v:
         v = holder['last'] or v
-        if v.key in rec.open_keys:
+        if match_known(v.key, rec.open_keys):
             rec.known_hits[v.key] += 1      # an open known finding
         else:
             rec.violations.append({'key': v.key, 'message': v.message,
@@ -242,7 +250,7 @@ def run_machine(rec, machine_cls, max_examples, steps, seed, shrink=False):
         where, origin = exc_origin(e)
         if where == 'repo':
             key = 'exception/' + origin
-            if key in rec.open_keys:
+            if match_known(key, rec.open_keys):
                 rec.known_hits[key] += 1
                 return
             last = holder['last']
@@ -403,7 +411,7 @@ def main(argv=None):
             v = do_replay(mod, e['replay'],
                           [k for k in open_keys if k != e['key']])
             if e['status'] == 'open':
-                if v is not None and v.key == e['key']:
+                if v is not None and match_known(v.key, [e['key']]):
                     known_lines.append(
                         'KNOWN-FINDING: property={} {} [{}]'.format(
                             prop_id, e['what'], e['key']))
